@@ -25,12 +25,22 @@ def classify(m, stores, out_blocks):
         bad.setdefault(key, 0); bad[key] += 1
     return bad
 
+def unlocked_reads_of_locked_writes(m):
+    """memory that the call writes while holding a lock and that other threads can reach must not be read outside the lock (a reader would race with another thread's locked write)"""
+    shared = m.reachable_from_globals()
+    wl = {b for (b, off, n, locked) in m.stores if locked and b in shared}
+    bad = {}
+    for (b, off, n, locked) in m.loads:
+        if b in wl and not locked:
+            blk = m.blocks[b]; key = (blk.kind, str(blk.tag)); bad[key] = bad.get(key, 0) + 1
+    return bad
+
 def traced_call(m, fn, args, outp):
-    m.epoch = 1; m.stores = []; m.trace_stores = True
+    m.epoch = 1; m.stores = []; m.trace_stores = True; m.loads = []; m.trace_loads = True
     try: r = m.call(fn, args); st = 'ret'
     except Throw: r = None; st = 'throw'
     except UB as e: r = None; st = 'ub ' + str(e)[:200]
-    m.trace_stores = False
+    m.trace_stores = False; m.trace_loads = False
     return r, st
 
 def job_plan(res, kind, n, nbig):
@@ -62,12 +72,14 @@ def job_free(res, fk, n):
     label = f'free function {FK[fk]} (n={n}), second call in a thread'
     cap = 8 * n + 64
     try:
-        w = m.alloc_doubles([0.3 + 0.1 * i for i in range(cap)], 'warm'); yw = m.alloc_doubles([0.0] * cap, 'yw'); m.call('@h_free', [fk, n, w, yw])
+        w = m.alloc_doubles([0.3 + 0.1 * i for i in range(cap + 64)], 'warm'); yw = m.alloc_doubles([0.0] * (cap + 64), 'yw')
+        m.call('@h_free', [fk, n + 2 if fk != 6 else 2 * n, w, yw])      # warm-up with ANOTHER length: per-length caches are refilled by the traced call, as they are when threads use different lengths
     except (Throw, UB) as e: res.inc(f'{label}: warm-up failed: {e}'); return
     x = m.alloc_doubles([fsym(f'x{i}') for i in range(cap)], 'x'); y = m.alloc_doubles([0.0] * cap, 'y')
     r, st = traced_call(m, '@h_free', [fk, n, x, y], y); res.absorb(m)
     if st != 'ret': res.inc(f'{label}: {st}'); return
     bad = classify(m, m.stores, {y.b})
+    for k, v in unlocked_reads_of_locked_writes(m).items(): bad[('unlocked read of lock-written ' + k[0], k[1])] = v
     sol = z3.Solver(); sol.add(z3.BoolVal(bool(bad))); c = sol.check(); res.queries += 1
     if c == z3.unsat: res.ob(True, 'WSET', f'{label}: all {len(m.stores)} stores go to fresh blocks, stack, the output or thread_local storage (plan caches and the random engine are per thread)')
     else:
